@@ -50,6 +50,12 @@ def _alarm(_sig: int, _frm: Any) -> None:
     raise _RunTimeout()
 
 
+def generate_spec(mod: Any, seed: int, config: str, tier: str) -> Dict[str, Any]:
+    """Generate a RunSpec and normalise it to plain JSON, so that what is executed is exactly
+    what a replay file can hold (e.g. no non-string object keys)."""
+    return json.loads(json.dumps(mod.generate(seed, config, tier)))
+
+
 def run_one(mod: Any, spec: Dict[str, Any], keep_events: bool = False) -> Outcome:
     """Execute one RunSpec.  Pure function of (code under /repo, spec)."""
     ctx = Ctx(spec, keep_events=keep_events)
@@ -84,6 +90,62 @@ def run_one(mod: Any, spec: Dict[str, Any], keep_events: bool = False) -> Outcom
     return out
 
 
+def run_spec(mod: Any, spec: Dict[str, Any], keep_events: bool = False) -> Outcome:
+    """Execute a RunSpec, preceded by its prelude (earlier runs of the same process), if any.
+
+    A prelude exists only when a violation could not be reproduced from a pristine process by
+    the failing run alone, i.e. it depends on process-global state left behind by earlier
+    evaluations -- which is itself a history the properties quantify over."""
+    pre = spec.get("prelude")
+    if pre:
+        for config, index in pre["runs"]:
+            seed = core.derive_seed(int(pre["base_seed"]), mod.PROPERTY, config, int(index))
+            try:
+                run_one(mod, generate_spec(mod, seed, config, pre["tier"]))
+            except HarnessError:
+                pass
+    return run_one(mod, spec, keep_events=keep_events)
+
+
+def pristine_eval(mod: Any, spec: Dict[str, Any], timeout: float = 300.0) -> Optional[Dict[str, Any]]:
+    """Execute *spec* in a forked child of this (pristine) process; return its verdict.
+
+    The calling process never executes a spec itself, so every child starts from the same
+    interpreter state as the batch workers did."""
+    ctx = multiprocessing.get_context("fork")
+    recv, send = ctx.Pipe(duplex=False)
+
+    def child() -> None:
+        try:
+            out = run_spec(mod, spec)
+            send.send({"violation": out.violation, "digest": out.digest, "choices": out.choices})
+        except BaseException as e:  # noqa: BLE001
+            try:
+                send.send({"error": f"{type(e).__name__}: {e}"})
+            except Exception:  # noqa: BLE001
+                pass
+        finally:
+            os._exit(0)
+
+    p = ctx.Process(target=child)
+    p.start()
+    send.close()
+    res: Optional[Dict[str, Any]] = None
+    try:
+        if recv.poll(timeout):
+            res = recv.recv()
+    except (EOFError, OSError):
+        res = None
+    finally:
+        if p.is_alive():
+            p.join(1.0)
+        if p.is_alive():
+            p.kill()
+        p.join()
+        recv.close()
+    return res
+
+
 # --------------------------------------------------------------------------
 # workers
 
@@ -116,7 +178,7 @@ def _worker(args: Tuple[Any, ...]) -> Dict[str, Any]:
     try:
         for i in range(wid, total, nworkers):
             seed = core.derive_seed(base_seed, mod.PROPERTY, config, i)
-            spec = mod.generate(seed, config, tier)
+            spec = generate_spec(mod, seed, config, tier)
             spec["index"] = i
             signal.alarm(RUN_WALL_LIMIT_S)
             try:
@@ -139,7 +201,8 @@ def _worker(args: Tuple[Any, ...]) -> Dict[str, Any]:
             if out.violation is not None:
                 spec2 = dict(spec)
                 spec2["choices"] = out.choices
-                res["violations"].append({"spec": spec2, "violation": out.violation, "digest": out.digest})
+                res["violations"].append({"spec": spec2, "violation": out.violation, "digest": out.digest,
+                                          "wid": wid, "nworkers": nworkers})
                 if len(res["violations"]) >= max_viol:
                     break
             elif i < 2 * nworkers and out.nontrivial and len(res["samples"]) < 1:
@@ -154,6 +217,59 @@ def _worker(args: Tuple[Any, ...]) -> Dict[str, Any]:
     res["sched"] = sorted(sched)
     res["states"] = list(res["states"])
     return res
+
+
+def _task_child(task: Tuple[Any, ...], conn: Any) -> None:
+    try:
+        conn.send(_worker(task))
+    except BaseException as e:  # noqa: BLE001
+        try:
+            conn.send({"fatal": f"{type(e).__name__}: {e}"})
+        except Exception:  # noqa: BLE001
+            pass
+    finally:
+        conn.close()
+        os._exit(0)
+
+
+def _run_tasks(tasks: List[Tuple[Any, ...]], nworkers: int, errors: List[str]) -> List[Dict[str, Any]]:
+    """Each task runs in its own process forked from this (pristine) one, at most *nworkers* at a time."""
+    from multiprocessing.connection import wait
+
+    ctx = multiprocessing.get_context("fork")
+    pending = list(tasks)
+    running: Dict[Any, Any] = {}
+    results: List[Dict[str, Any]] = []
+    deadline = time.time() + 8 * 3600
+    while pending or running:
+        while pending and len(running) < max(1, nworkers):
+            t = pending.pop(0)
+            recv, send = ctx.Pipe(duplex=False)
+            p = ctx.Process(target=_task_child, args=(t, send))
+            p.start()
+            send.close()
+            running[recv] = (p, t)
+        ready = wait(list(running), timeout=5.0)
+        for conn in ready:
+            p, t = running.pop(conn)
+            try:
+                r = conn.recv()
+                if "fatal" in r:
+                    errors.append(f"worker failed ({t[3]} #{t[5]}): {r['fatal']}")
+                else:
+                    results.append(r)
+            except (EOFError, OSError):
+                errors.append(f"worker died without a result (config={t[3]} worker={t[5]})")
+            conn.close()
+            p.join(10.0)
+            if p.is_alive():
+                p.kill()
+        if time.time() > deadline:
+            for conn, (p, t) in running.items():
+                p.kill()
+                errors.append(f"worker timed out (config={t[3]} worker={t[5]})")
+            break
+    return results
 
 
 def run_batch(
@@ -188,18 +304,7 @@ def run_batch(
         "digests": {},
         "choices": 0,
     }
-    if nworkers <= 1:
-        results = [_worker(t) for t in tasks]
-    else:
-        ctx = multiprocessing.get_context("fork")
-        results = []
-        with ProcessPoolExecutor(max_workers=nworkers, mp_context=ctx) as ex:
-            futs = [ex.submit(_worker, t) for t in tasks]
-            for f in futs:
-                try:
-                    results.append(f.result(timeout=6 * 3600))
-                except Exception as e:  # noqa: BLE001
-                    merged["errors"].append(f"worker died: {type(e).__name__}: {e}")
+    results = _run_tasks(tasks, nworkers, merged["errors"])
     for r in results:
         if r["error"]:
             merged["errors"].append(r["error"])
@@ -227,13 +332,13 @@ def run_batch(
 # minimisation
 
 
-def _fails(mod: Any, spec: Dict[str, Any], clause: str) -> Optional[Outcome]:
-    try:
-        out = run_one(mod, spec)
-    except HarnessError:
+def _fails(mod: Any, spec: Dict[str, Any], clause: str) -> Optional[Dict[str, Any]]:
+    """Does *spec* violate *clause* when executed from a pristine process?"""
+    res = pristine_eval(mod, spec)
+    if not res or res.get("error") or not res.get("violation"):
         return None
-    if out.violation is not None and out.violation["clause"] == clause:
-        return out
+    if res["violation"]["clause"] == clause:
+        return res
     return None
 
 
@@ -255,9 +360,32 @@ def minimise(
         if out is None:
             return False
         cand = copy.deepcopy(cand)
-        cand["choices"] = out.choices
+        cand["choices"] = out["choices"]
         best = cand
         return True
+
+    # 0. prelude (earlier runs of the same process the violation depends on): fewest first
+    pre = best.get("prelude")
+    if pre and pre["runs"]:
+        runs = list(pre["runs"])
+        size = len(runs) // 2
+        while size >= 1 and budget_left():
+            shrunk = False
+            for start in range(0, len(runs), size):
+                cand = dict(best)
+                cand["prelude"] = dict(pre)
+                cand["prelude"]["runs"] = runs[:start] + runs[start + size :]
+                if attempt(cand):
+                    runs = best["prelude"]["runs"]
+                    pre = best["prelude"]
+                    shrunk = True
+                    break
+                if not budget_left():
+                    break
+            if not shrunk:
+                size //= 2
+        if not best["prelude"]["runs"]:
+            best.pop("prelude", None)
 
     progress = True
     while progress and budget_left():
@@ -408,6 +536,8 @@ def write_replay(mod: Any, spec: Dict[str, Any], violation: Dict[str, str], dige
         "plan": spec["plan"],
         "choices": spec.get("choices") or [],
     }
+    if spec.get("prelude"):
+        doc["prelude"] = spec["prelude"]
     rep = getattr(mod, "repro", None)
     if rep is not None:
         try:
@@ -432,7 +562,9 @@ def replay_file(mod: Any, path: str, verbose: bool = True) -> int:
         "choices": doc.get("choices") or [],
         "tier": doc.get("tier"),
     }
-    out = run_one(mod, spec, keep_events=True)
+    if doc.get("prelude"):
+        spec["prelude"] = doc["prelude"]
+    out = run_spec(mod, spec, keep_events=True)
     if verbose:
         for e in out.events[-60:]:
             print("  |", e)
@@ -471,7 +603,7 @@ def digests_only(mod: Any, tier: str, base_seed: int, n: int) -> Dict[str, str]:
     for config, total in mod.BUDGET[tier].items():
         for i in range(min(n, total)):
             seed = core.derive_seed(base_seed, mod.PROPERTY, config, i)
-            spec = mod.generate(seed, config, tier)
+            spec = generate_spec(mod, seed, config, tier)
             o = run_one(mod, spec)
             out[f"{config}:{i}"] = o.digest
     return out
@@ -560,25 +692,45 @@ def main_check(modname: str, argv: List[str]) -> int:
                 print(f"KNOWN-FINDING: property={prop} {k['text']}")
                 known_printed += 1
                 continue
-            if reported >= 4:
+            if reported >= 3:
                 continue
             spec = v["spec"]
             spec["tier"] = args.tier
-            small = minimise(mod, spec, v["violation"]["clause"])
-            out = run_one(mod, small)
-            if out.violation is None:
+            clause = v["violation"]["clause"]
+            # Does the failing run alone reproduce it from a pristine process?  If not, it depends on
+            # process-global state left by the earlier runs of that worker: replay those first.
+            first = _fails(mod, spec, clause)
+            if first is None:
+                spec = dict(spec)
+                spec["prelude"] = {
+                    "base_seed": base_seed,
+                    "tier": args.tier,
+                    "runs": [[spec["config"], j] for j in range(v["wid"], spec["index"], v["nworkers"])],
+                }
+                first = _fails(mod, spec, clause)
+                if first is None:
+                    print(
+                        f"HARNESS-NONDETERMINISM property={prop}: run {spec['config']}:{spec['index']} violated {clause} in its "
+                        f"worker but neither it nor the worker's whole history reproduces it from a pristine process",
+                        file=sys.stderr,
+                    )
+                    rc = 2
+                    continue
+            small = minimise(mod, spec, clause, max_execs=300 if spec.get("prelude") else 500, max_s=90.0)
+            final = _fails(mod, small, clause)
+            if final is None:
                 print(f"HARNESS-NONDETERMINISM property={prop}: minimised spec did not fail again", file=sys.stderr)
                 rc = 2
                 continue
-            small["choices"] = out.choices
-            path = write_replay(mod, small, out.violation, out.digest)
+            small["choices"] = final["choices"]
+            path = write_replay(mod, small, final["violation"], final["digest"])
             env = dict(os.environ)
             env["VERIF_NO_REEXEC"] = "0"
             p = subprocess.run(
                 [sys.executable, os.path.join(VERIF, "bin", "check"), prop, "--replay", path],
                 capture_output=True,
                 text=True,
-                timeout=600,
+                timeout=900,
                 env=env,
             )
             if p.returncode != 1:
@@ -589,6 +741,11 @@ def main_check(modname: str, argv: List[str]) -> int:
                 )
                 rc = 2
                 continue
+
+            class _O:  # noqa: N801
+                violation = final["violation"]
+
+            out = _O()  # type: ignore[assignment]
             print(f"{out.violation['clause']}: {core.short(out.violation['message'], 600)}")
             print(f"VIOLATION property={prop} replay={path}")
             reported += 1
@@ -620,7 +777,7 @@ def write_evidence(
 ) -> None:
     samples = []
     for config, index, seed in sorted(merged["samples"])[:3]:
-        spec = mod.generate(seed, config, tier)
+        spec = generate_spec(mod, seed, config, tier)
         out = run_one(mod, spec, keep_events=True)
         samples.append(
             {
@@ -640,7 +797,7 @@ def write_evidence(
         for config, total in budget.items():
             if total > 0:
                 seed = core.derive_seed(base_seed, mod.PROPERTY, config, 0)
-                spec = mod.generate(seed, config, tier)
+                spec = generate_spec(mod, seed, config, tier)
                 out = run_one(mod, spec, keep_events=True)
                 samples.append({"config": config, "index": 0, "seed": seed, "plan": spec["plan"],
                                 "choices": out.choices[:200], "event_log_tail": out.events[-40:],
